@@ -657,7 +657,7 @@ def adv_key(c, kind):
 def run(pid, tier):
     ck = Check(pid, tier, level="exploration" if pid == "C14" else "model_checking")
     ck.assumptions = ["line kinds are concretized with known sensitive positions (ground truth of the generator)",
-                      "characters that str.split() treats as white space other than blank/tab (lone CR, NBSP, ...) are a don't-care for C12",
+                      "characters that str.split() treats as white space other than blank/tab (lone CR, NBSP, ...) are a don't-care INSIDE a line; at the line edges they are leading / trailing white space and must be kept (kind edge-unicode-space)",
                       "TLC and the code-point projection are trusted"]
     traces, meta = {"C12": run_c12, "C14": run_c14, "C15": run_c15}[pid](ck, tier)
     validate_traces("Pipeline", "Pipeline.cfg", traces, max_events_per_shard=4000)
